@@ -31,7 +31,7 @@ theorem Acc.run_append (st : Acc) (L M : List (Item K)) : st.run (L ++ M) = (st.
   unfold Acc.run; rw [List.foldl_append]
 
 theorem getLastD_mem {β : Type} : ∀ (L : List β) (x : β), L.getLastD x ∈ x :: L
-  | [], x => by simp [List.getLastD_nil]
+  | [], x => by simp
   | y :: L, x => by
     rw [List.getLastD_cons]
     exact List.mem_cons_of_mem _ (getLastD_mem L y)
@@ -113,7 +113,7 @@ theorem filter_flip (p p' : Nat → Bool) (k : Nat) (hne : ∀ i, i ≠ k → p'
       have e1 : ¬ (n < n ∧ p n = true) := fun h => absurd h.1 (lt_irrefl _)
       have e2 : ¬ (n < n ∧ p' n = true) := fun h => absurd h.1 (lt_irrefl _)
       rw [if_neg e1, if_neg e2] at ih
-      cases hp : p n <;> cases hp' : p' n <;> simp [List.filter_cons, hp, hp'] <;> omega
+      cases hp : p n <;> cases hp' : p' n <;> simp [hp, hp'] <;> omega
     · have e : p' n = p n := hne n hk
       have e1 : (k < n + 1 ∧ p k = true) ↔ (k < n ∧ p k = true) := by
         constructor
@@ -152,7 +152,7 @@ theorem cnt_snoc (L : List (Item K)) (it : Item K) (i : Nat) :
   unfold cnt
   rw [List.countP_append]
   congr 1
-  by_cases h : it.tri = i + 1 <;> simp [List.countP_cons, h]
+  by_cases h : it.tri = i + 1 <;> simp [h]
 
 theorem accInv_step (n : Nat) (st : Acc) (L : List (Item K)) (it : Item K) (hinv : AccInv n st L)
     (htri : it.tri ≤ n) : AccInv n (st.step it) (L ++ [it]) := by
